@@ -26,9 +26,13 @@ VARIABLES fmt, x, chain, cur, mode, sets, s, steps, delivered, since, verdict, m
 vars == <<fmt, x, chain, cur, mode, sets, s, steps, delivered, since, verdict, mut>>
 
 N == Len(chain)
+\* (a record set that has been filled owns a buffer - 16 bytes here - and keeps it; len()/is_empty() tell what iteration yields)
 Ev(op, slot, n, to, res, pos, newsets) ==
   [op |-> op, slot |-> slot, n |-> n, to |-> to, res |-> res, pos |-> pos, io |-> <<>>, grow |-> <<>>, cap |-> -1, alloc |-> -1,
-   sets |-> newsets, sets_panic |-> FALSE, setcap |-> [t \in 1..NSlots |-> 0], fault |-> FALSE, pp |-> ""]
+   sets |-> newsets, sets_panic |-> FALSE,
+   setcap |-> [t \in 1..NSlots |-> IF op \in {"set", "exact"} /\ t = slot /\ res.k = "ok" THEN 16 ELSE s.setcap[t]],
+   setlens |-> [t \in 1..NSlots |-> Len(newsets[t])], setempty |-> [t \in 1..NSlots |-> newsets[t] = <<>>],
+   fault |-> FALSE, pp |-> ""]
 \* an event with source / policy sub-events
 EvX(op, res, pos, io, grow, cap) ==
   [Ev(op, 0, 0, <<>>, res, pos, sets) EXCEPT !.io = io, !.grow = grow, !.cap = cap]
@@ -85,6 +89,16 @@ ISeek(j) ==
   /\ \A i \in 1..(j - 1) : Coords(chain[i]) # Coords(chain[j])
   /\ Apply(Ev("seek", 0, 0, Coords(chain[j]), [k |-> "ok"], <<>>, sets), j, "stream", sets, <<>>, j)
 
+\* RecordSet::shrink_buffer_to_fit: the set keeps its records, its buffer may become smaller
+IShrink(t) ==
+  /\ steps < MaxSteps /\ mut = "none" /\ verdict = {} /\ mode \in {"stream", "ended", "failed"}
+  /\ \E c \in {s.setcap[t], 4} : c <= s.setcap[t]
+       /\ Apply([Ev("shrink", t, s.setcap[t], <<>>, [k |-> "ok"], <<>>, sets) EXCEPT !.setcap[t] = c], cur, mode, sets, delivered, since)
+\* a policy installed after a refusal takes over: the record that did not fit is due again
+ITakeover ==
+  /\ steps < MaxSteps /\ mut = "none" /\ verdict = {} /\ mode = "limbo" /\ s.lcause = "buffer_limit"
+  /\ Apply(Ev("set_policy", 0, 0, <<>>, [k |-> "ok"], <<>>, sets), cur, "stream", sets, <<>>, cur)
+
 \* ---- wrong steps (each is one event an incorrect reader could produce); `mut` names the expected property
 Wrong(e, name) == LET j == Judge(fmt, chain, s, e) IN
   /\ verdict' = j.viol /\ mut' = name /\ steps' = MaxSteps /\ UNCHANGED <<fmt, x, chain, cur, mode, sets, s, delivered, since>>
@@ -108,7 +122,7 @@ MShortExact == /\ steps < MaxSteps /\ mut = "none" /\ verdict = {} /\ mode = "st
                /\ Wrong(Ev("exact", 1, 2, <<>>, [k |-> "ok"], <<>>, [sets EXCEPT ![1] = <<RecRes(chain[cur])>>]), "C04")
 MEmptyBatch == /\ steps < MaxSteps /\ mut = "none" /\ verdict = {} /\ mode = "stream" /\ chain[cur].okRec
                /\ Wrong(Ev("set", 1, 0, <<>>, [k |-> "ok"], <<>>, [sets EXCEPT ![1] = <<>>]), "C04")
-MSeekLost == /\ steps < MaxSteps /\ mut = "none" /\ verdict = {} /\ mode = "stream" /\ "seek" \in s.ctx /\ "mixed" \notin s.ctx
+MSeekLost == /\ steps < MaxSteps /\ mut = "none" /\ verdict = {} /\ mode = "stream" /\ "seek" \in s.ctx /\ "mixed" \notin s.ctx /\ "takeover" \notin s.ctx
              /\ cur + 1 <= N /\ chain[cur].okRec /\ chain[cur + 1].okRec /\ Differs(chain[cur], chain[cur + 1])
              /\ Wrong(Ev("next", 0, 0, <<>>, RecRes(chain[cur + 1]), Coords(chain[cur + 1]), sets), "C05")
 
@@ -153,6 +167,25 @@ MFabricatedAfterError == /\ steps < MaxSteps /\ mut = "none" /\ verdict = {} /\ 
                          /\ Wrong(Ev("next", 0, 0, <<>>, [k |-> "rec", head |-> <<1, 2, 3>>, lines |-> <<<<4>>>>, qual |-> <<>>], <<>>, sets), "C06")
 MPanic == /\ steps < MaxSteps /\ mut = "none" /\ verdict = {}
           /\ Wrong(Ev("next", 0, 0, <<>>, [k |-> "panic", msg |-> "x"], <<>>, sets), "C06")
+\* a panic where exactly one result is due is also a violation of the property that fixes that result
+MPanicDue == /\ steps < MaxSteps /\ mut = "none" /\ verdict = {} /\ mode \in {"stream", "ended", "failed"} /\ s.ctx = {}
+             /\ Wrong(Ev("next", 0, 0, <<>>, [k |-> "panic", msg |-> "x"], <<>>, sets), "base")
+MPanicSet == /\ steps < MaxSteps /\ mut = "none" /\ verdict = {} /\ mode \in {"stream", "ended", "failed"}
+             /\ Wrong(Ev("set", 1, 0, <<>>, [k |-> "panic", msg |-> "x"], <<>>, sets), "C04")
+\* after a take-over the stream goes on with the refused record, not with the one after it
+MTakeoverSkip == /\ steps < MaxSteps /\ mut = "none" /\ verdict = {} /\ mode = "stream" /\ "takeover" \in s.ctx
+                 /\ cur + 1 <= N /\ chain[cur].okRec /\ chain[cur + 1].okRec /\ Differs(chain[cur], chain[cur + 1])
+                 /\ Wrong(Ev("next", 0, 0, <<>>, RecRes(chain[cur + 1]), Coords(chain[cur + 1]), sets), "C09")
+\* a record set that reports the end of the input gives its buffer back
+MCapRelease == /\ steps < MaxSteps /\ mut = "none" /\ verdict = {} /\ mode \in {"ended", "failed"} /\ s.setcap[1] > 0
+               /\ Wrong([Ev("set", 1, 0, <<>>, [k |-> "none"], <<>>, [sets EXCEPT ![1] = <<>>]) EXCEPT !.setcap[1] = 0], "C18")
+\* len() disagrees with what iteration yields
+MLenWrong == /\ steps < MaxSteps /\ mut = "none" /\ verdict = {} /\ mode = "stream" /\ chain[cur].okRec
+             /\ LET ns == [sets EXCEPT ![1] = <<RecRes(chain[cur])>>] IN
+                Wrong([Ev("set", 1, 0, <<>>, [k |-> "ok"], <<>>, ns) EXCEPT !.setlens[1] = 2], "C04")
+\* shrinking a set loses its records
+MShrinkLoses == /\ steps < MaxSteps /\ mut = "none" /\ verdict = {} /\ sets[1] # <<>> /\ mode \in {"stream", "ended", "failed"}
+                /\ Wrong(Ev("shrink", 1, 0, <<>>, [k |-> "ok"], <<>>, [sets EXCEPT ![1] = <<>>]), "C04")
 MGrowFits == /\ steps < MaxSteps /\ mut = "none" /\ verdict = {} /\ mode = "stream" /\ chain[cur].okRec /\ s.cap > 0 /\ ~(chain[cur].len + 1 > s.cap)
              /\ Wrong(EvX("next", RecRes(chain[cur]), Coords(chain[cur]), <<>>, <<[c |-> s.cap, a |-> 2 * s.cap, p |-> Pol]>>, 2 * s.cap), "C09")
 MLimitWithoutRefusal == /\ steps < MaxSteps /\ mut = "none" /\ verdict = {} /\ mode = "stream"
@@ -164,7 +197,8 @@ MArithmetic == /\ steps < MaxSteps /\ mut = "none" /\ verdict = {} /\ mode = "st
 MCapNotAdopted == /\ steps < MaxSteps /\ mut = "none" /\ verdict = {} /\ mode = "stream" /\ chain[cur].okRec /\ s.cap > 0 /\ chain[cur].len + 1 > s.cap
                   /\ Wrong(EvX("next", RecRes(chain[cur]), Coords(chain[cur]), <<>>, <<[c |-> s.cap, a |-> 2 * s.cap, p |-> Pol]>>, 2 * s.cap + 3), "C09")
 
-Next == \/ IFault("other") \/ IFault("would_block") \/ IAfterFault \/ IInterrupted \/ IGrow \/ IRefused
+Next == \/ (\E t \in 1..NSlots : IShrink(t)) \/ ITakeover \/ MPanicDue \/ MPanicSet \/ MTakeoverSkip \/ MCapRelease \/ MLenWrong \/ MShrinkLoses
+        \/ IFault("other") \/ IFault("would_block") \/ IAfterFault \/ IInterrupted \/ IGrow \/ IRefused
         \/ MSwallowed \/ MKindChanged \/ MIntrSurfaces \/ MLateError \/ MTruncation \/ MFabricatedAfterError \/ MPanic
         \/ MGrowFits \/ MLimitWithoutRefusal \/ MWrongGrowArg \/ MArithmetic \/ MCapNotAdopted
         \/ INext("next") \/ INext("iter") \/ (\E t \in 1..NSlots : ISet(t, 0) \/ ISet(t, 1) \/ ISet(t, 2)) \/ (\E j \in 1..6 : ISeek(j))
